@@ -609,7 +609,21 @@ def mon_c14(ix: Index):  # noqa: C901, PLR0912
             # only a status the SDK must already know (the one the invocation started with) is held against it: a completion
             # that lands while the call is in progress may not have reached the SDK yet
             st0 = next((x["statuses"].get(e.get("oid")) for x in ix.by_inv.get(e["inv"], []) if x["kind"] == "inv_start"), None)
-            if ok_ != "wfcb" and e.get("st") != "STARTED" and st0 == e.get("st"):
+            known_to_sdk = st0 == e.get("st")
+            if not known_to_sdk and e.get("st") in TERMINAL:
+                # ... or a completion delivered inside the response of an API call whose synchronous caller - this very thread -
+                # has since returned from its operation: responses are merged in order before waiters are released, so the
+                # SDK's state held the completion before this call was made
+                nm = path if ok_ != "wfcb" else path + " create callback id"
+                w = next((x for x in ix.by_inv.get(e["inv"], []) if x["kind"] == "world" and x.get("what") == "external" and x.get("name") == nm), None)
+                mycall = next((x for x in reversed(ix.by_inv.get(e["inv"], [])) if x["i"] < e["i"] and x["kind"] == "call" and x.get("path") == path and x.get("phase") == e.get("phase")), None)
+                if w is not None and mycall is not None:
+                    for x in ix.by_inv.get(e["inv"], []):
+                        if x["kind"] == "ret" and x.get("t") == e.get("t") and w["i"] < x["i"] < mycall["i"] and x.get("opkind") in ("step", "wfc", "child") \
+                                and any(a2.get("u") and a2["u"]["Id"] == x.get("oid") and a2["seq"] >= w.get("aseq", 10**12) for a2 in ix.applied):
+                            known_to_sdk = True
+                            break
+            if ok_ != "wfcb" and e.get("st") != "STARTED" and known_to_sdk:
                 out.append(V("C14", "C14/suspended-although-not-outstanding/%s-%s" % (ok_, e.get("st")), "%s suspended with status %s" % (path, e.get("st")), e["i"]))
         elif k == "ret" and ok_ in ("cb", "invoke"):
             n += 1
@@ -1228,6 +1242,13 @@ def mon_c09(ix: Index):  # noqa: C901, PLR0912
             h = next((x for x in ix.trace if x["kind"] == "hang"), {})
             if h.get("verdict") == "hang":
                 out.append(V("C09", "C09/call-never-returned/%s" % ("zero-items" if nb == 0 else "n>0"), "%s never returned: every thread parked" % path, h.get("i")))
+        for e in ix.trace:
+            if e["kind"] == "susp" and e.get("path") == path and e.get("opkind") in ("par", "map") and nb > 0:
+                oks = sum(1 for (sq, _i, k) in comp if sq <= e.get("aseq", 0) and k == "ok")
+                fls = sum(1 for (sq, _i, k) in comp if sq <= e.get("aseq", 0) and k == "fail")
+                minonly = cfgd.get("min_ok") is not None and cfgd.get("tol_n") is None and cfgd.get("tol_pct") is None
+                if policy_decided(cfgd, oks, fls, nb) and not (minonly and fls > 0):
+                    out.append(V("C09", "C09/suspended-although-policy-decided", "%s suspended with ok=%d fail=%d of %d although its completion policy %s was decided" % (path, oks, fls, nb, cfgd), e["i"]))
         # the call must not wait for branches that are still running once the policy is decided
         for e in ix.trace:
             if e["kind"] == "release" and e.get("forced") and str(e.get("name", "")).startswith("blk:" + path + ":"):
